@@ -84,7 +84,7 @@ fn excludes(v: Option<&Value>) -> std::result::Result<Exclude, conserve::Error> 
     }
 }
 
-fn backup_options(v: &Value, changes: Option<Rc<RefCell<Vec<Value>>>>) -> std::result::Result<BackupOptions, conserve::Error> {
+fn backup_options(v: &Value, changes: Option<Rc<RefCell<Vec<Value>>>>, src: &std::path::Path) -> std::result::Result<BackupOptions, conserve::Error> {
     let mut o = BackupOptions::default();
     if let Some(x) = v.get("meph").and_then(Value::as_u64) {
         o.max_entries_per_hunk = x as usize;
@@ -99,9 +99,31 @@ fn backup_options(v: &Value, changes: Option<Rc<RefCell<Vec<Value>>>>) -> std::r
         o.owner = x;
     }
     o.exclude = excludes(v.get("excludes"))?;
-    if let Some(ch) = changes {
+    // "mutate": [{"after": apath, "path": relative path, "len": n}]: the source changes WHILE it is backed up: once the
+    // entry `after` has been stored, the file `path` (already listed and stat-ed with its directory) is cut to `len` bytes
+    let mutate: Vec<(String, std::path::PathBuf, u64)> = v
+        .get("mutate")
+        .and_then(Value::as_array)
+        .map(|a| {
+            a.iter()
+                .filter_map(|m| {
+                    Some((m.get("after")?.as_str()?.to_string(), src.join(m.get("path")?.as_str()?), m.get("len")?.as_u64()?))
+                })
+                .collect()
+        })
+        .unwrap_or_default();
+    if changes.is_some() || !mutate.is_empty() {
         o.change_callback = Some(Box::new(move |ec: &EntryChange| {
-            ch.borrow_mut().push(json!([ec.change.sigil().to_string(), ec.apath.to_string(), serde_json::to_value(ec).unwrap_or(Value::Null)]));
+            if let Some(ch) = &changes {
+                ch.borrow_mut().push(json!([ec.change.sigil().to_string(), ec.apath.to_string(), serde_json::to_value(ec).unwrap_or(Value::Null)]));
+            }
+            for (after, path, len) in &mutate {
+                if *after == ec.apath.to_string() {
+                    if let Ok(f) = std::fs::OpenOptions::new().write(true).open(path) {
+                        let _ = f.set_len(*len);
+                    }
+                }
+            }
             Ok(())
         }));
     }
@@ -204,7 +226,7 @@ fn res_json<T>(out: &mut Value, r: Option<std::result::Result<T, conserve::Error
 
 async fn do_backup(transport: Transport, monitor: Arc<TestMonitor>, src: PathBuf, optv: Value, changes: Option<Rc<RefCell<Vec<Value>>>>) -> std::result::Result<BackupStats, conserve::Error> {
     let archive = Archive::open(transport).await?;
-    let options = backup_options(&optv, changes)?;
+    let options = backup_options(&optv, changes, &src)?;
     backup(&archive, &src, &options, monitor).await
 }
 
